@@ -140,7 +140,10 @@ def r1_plumbing(ctx, rep):
         # an optional parameter that overrides it is fine as long as no caller uses it
         params = {a.arg for a in g.args.args + g.args.kwonlyargs}
         callers = [c for _m, f2 in py.all_functions() for c in py.walk_calls(f2) if call_name(c).split(".")[-1] == g.name]
-        others = [a for a in alts if not ast.unparse(a).endswith(".permission")]
+        # (a local that only carries the value - `perm = parent.permission` - is not a source of its own)
+        carriers = {a.id for a in alts if isinstance(a, ast.Name) and a.id not in params and
+                    any(v is not None for _t, v in astq.assignments(g, a.id))}
+        others = [a for a in alts if not ast.unparse(a).endswith(".permission") and not (isinstance(a, ast.Name) and a.id in carriers)]
         unused_override = all(isinstance(a, ast.Name) and a.id in params and not any(
             astq.bind_args(c, g).get(a.id) is not None for c in callers) for a in others)
         ok = from_parent and unused_override
@@ -281,12 +284,15 @@ def r3_access_statements(ctx, rep):
 
     def looks_up_by_name(loop: ast.For) -> bool:
         v = ast.unparse(loop.target)
+
+        def is_name_key(k: ast.AST) -> bool:
+            # the key directly, or through a local bound to it (`key = var.name.lower()`)
+            return any(f"{v}.name" in t and ".lower()" in t for t in (ast.unparse(x) for x in astq.expand_locals(k, pa)))
         for n in ast.walk(loop):
-            if isinstance(n, ast.Subscript) and ast.unparse(n.value) == "self.attr_dict" and f"{v}.name" in ast.unparse(n.slice) \
-                    and ".lower()" in ast.unparse(n.slice):
+            if isinstance(n, ast.Subscript) and ast.unparse(n.value) == "self.attr_dict" and is_name_key(n.slice):
                 return True
             if isinstance(n, ast.Call) and call_name(n) in ("self.attr_dict.get", "self.attr_dict.pop") and n.args \
-                    and f"{v}.name" in ast.unparse(n.args[0]) and ".lower()" in ast.unparse(n.args[0]):
+                    and is_name_key(n.args[0]):
                 return True
         return False
     ok = bool(ent_loop) and looks_up_by_name(ent_loop[0])
@@ -484,6 +490,37 @@ def r7_names_and_given_permission(ctx, rep):
         raise AnalysisError("no constructor with a `permission` parameter found")
 
 
+def r8_statement_fragments(ctx, rep):
+    """the bare `private` / `public` statement and the access statements are recognised on a statement without surrounding blanks:
+    the reader strips every `;` fragment (shared with C02.R5)"""
+    from . import c02
+    c02.r5_continuation(ctx, rep)
+
+
+def r9_attribute_split(ctx, rep):
+    """`<type>, <attributes> :: <entities>`: the attribute list ends at the FIRST `::` - the entity list may contain another one
+    (`names(2) = [character(len=3) :: "ab", "cde"]`).  If the attribute group can run greedily over `::`, `public` / `private` /
+    `protected` end up inside a longer piece of text, are not recognised, and the declaration loses its access attribute."""
+    py = ctx.py
+    ltv = py.func("sourceform.line_to_variables")
+    used = {ast.unparse(c.func.value).split(".")[-1] for c in py.walk_calls(ltv)
+            if isinstance(c.func, ast.Attribute) and c.func.attr in ("match", "search", "fullmatch")}
+    n = 0
+    for key, (pat, flags, node, mod) in sorted(ctx.regexes.items()):
+        nm = key.split(".")[-1]
+        if mod != "sourceform" or nm not in used or "::" not in pat:
+            continue
+        n += 1
+        bad = [(g, sep) for g, sep, _r in common.greedy_groups_before_literal(pat, flags) if sep.startswith("::")]
+        rep.ob(f"{nm}: the attribute list ends at the first `::`", not bad,
+               "the group in front of `::` cannot run over a `::`" if not bad else
+               f"group {bad[0][0]} of `{pat}` is greedy and can match `:`: with a second `::` in the statement (an array constructor "
+               f"with a type-spec) the attribute list swallows the entity name, the access attribute is no longer a piece of its own "
+               f"and is lost", py.nloc(node), witness=None if not bad else "integer, parameter, private :: n(2) = [integer :: 1, 2]")
+    if n == 0:
+        raise AnalysisError("line_to_variables: no pattern that splits attributes from entities at `::` found")
+
+
 RULES = [
     RuleSpec("C04.R1", r1_plumbing, "permission plumbing table", floor=12),
     RuleSpec("C04.R2", r2_declaration_attributes, "declaration access attributes", floor=3),
@@ -491,5 +528,7 @@ RULES = [
     RuleSpec("C04.R4", r4_order_sensitivity, "scope default not read before the specification part is complete", floor=1),
     RuleSpec("C04.R5", r5_interface_and_constructor, "interface procedures and constructors", floor=2),
     RuleSpec("C04.R6", r6_memo, "caches on the declaration path are keyed by everything the cached value depends on", floor=1),
+    RuleSpec("C04.R8", r8_statement_fragments, "statements reach the parser without surrounding blanks (shared with C02.R5)", floor=3),
+    RuleSpec("C04.R9", r9_attribute_split, "the attribute list of a declaration ends at the first `::`", floor=1),
     RuleSpec("C04.R7", r7_names_and_given_permission, "names are spelled like their access-statement keys; a given accessibility is stored", floor=15),
 ]
